@@ -45,6 +45,21 @@ Theorem C15_recover_counts : forall (m : Z) (a : alg) (rw : Z -> Z) (evs : list 
 Proof. exact recover_counts. Qed.
 Print Assumptions C15_recover_counts.
 
+(* The same from a history in which some or all rewarded DNAs are stored as they were PROPOSED — without the
+   feedback sequence number and fitness that feedback() later wrote on them (a backend that stores the DNA at
+   proposal time and the reward when it arrives; or a reward that reached the history while the process died
+   before feedback() was called: then r is the run in which that feedback was delivered).  [hrk_b h hm] is the
+   decidable form of "hm is h with such replacements"; the model evaluates it on every generated case. *)
+Theorem C15_recover_from_stored_proposals : forall (m : Z) (a : alg) (rw : Z -> Z) (evs : list Z) (hm : list hentry),
+  recoverable a = true ->
+  let g := denote m a in
+  let r := run_events g rw evs in
+  r_ok g r = true ->
+  hrk_b (r_hist g r) hm = true ->
+  pview (obs g (recovered g hm)) = pview (obs g (r_st g r)).
+Proof. exact recover_from_stored_proposals_b. Qed.
+Print Assumptions C15_recover_from_stored_proposals.
+
 (* Sweeping, seeded Random and Deduping over them continue, after recovery, with exactly the proposals of
    the uninterrupted run (any number n of further proposals, including the StopIteration that ends them). *)
 Theorem C15_continuation : forall (m : Z) (a : alg) (rw : Z -> Z) (evs : list Z) (n : nat),
